@@ -405,7 +405,8 @@ def plan_from_states(states, mode, cap=None):
                 # the decade is cfg.k; the lattice unit is 10^k m exactly for one half of the plan and m * 10^k m with a generic
                 # mantissa m in [1, 10) for the other half (coordinates that are not round numbers of metres)
                 kp = kappa_params(f"{h}", (0, 0), lam_exact=1.0) if tid % 2 else kappa_params(f"{h}:mant", (0, 1))
-            elif any(o["lab"].startswith("ext_") for o in pre["obs"]) or (act["name"] != "Reconcretize" and tid % nslots == 0 and mode == "C13"):
+            elif any(o["lab"].startswith("ext_") for o in pre["obs"]) or (mode == "C13" and s["base"][0] == "CylinderHalfPlanes") \
+                    or (act["name"] != "Reconcretize" and tid % nslots == 0 and mode == "C13"):
                 kp = exact_gauge(f"{h}:{tid % 3}")
             elif act["name"] == "Reconcretize":
                 # spread the lattice unit over the decades 1e-9 .. 1e9
